@@ -32,7 +32,7 @@ type pairLE struct {
 	C [2]uint8
 }
 
-var encKinds = []string{"i8", "i16", "i32", "i64", "u16", "u32", "u64", "int", "str16", "bytes3", "structle", "structbe", "bytes64", "bytes1k", "str16long", "userenc", "dummy"}
+var encKinds = []string{"i8", "i16", "i32", "i64", "u16", "u32", "u64", "int", "str16", "bytes3", "structle", "structbe", "bytes64", "bytes1k", "str16long", "userenc", "dummy", "userraw"}
 
 // userEnc is an Encoder supplied by the "user" (the harness), not one of
 // slim's own: variable width, one length byte followed by the payload, and
@@ -76,6 +76,18 @@ func (userEnc) GetEncodedSize(b []byte) int {
 	return 1 + int(b[0])
 }
 
+// userRaw is a second user encoder: the payload and nothing else (the leaf array
+// knows where an element ends). A value that is the empty string encodes to
+// ZERO bytes - a leaf with an empty record next to leaves with records, in the
+// fixed-size layout (all non-empty values equally long: "fixed with holes") as
+// well as in the variable-size one.
+type userRaw struct{}
+
+func (userRaw) Encode(d interface{}) []byte        { return []byte(d.(string)) }
+func (userRaw) Decode(b []byte) (int, interface{}) { return len(b), string(b) }
+func (userRaw) GetSize(d interface{}) int          { return len(d.(string)) }
+func (userRaw) GetEncodedSize(b []byte) int        { return len(b) }
+
 // bytesSize: width of the fixed-size byte-slice encoders.
 func bytesSize(kind string) int {
 	switch kind {
@@ -91,7 +103,9 @@ func bytesSize(kind string) int {
 
 // fixedEncKinds: encoders whose values have a fixed width (scans with values
 // are only well defined for these in today's slim, see DESIGN 10).
-func encFixed(kind string) bool { return kind != "str16" && kind != "str16long" && kind != "userenc" }
+func encFixed(kind string) bool {
+	return kind != "str16" && kind != "str16long" && kind != "userenc" && kind != "userraw"
+}
 
 func encoderOf(kind string) encode.Encoder {
 	switch kind {
@@ -113,6 +127,8 @@ func encoderOf(kind string) encode.Encoder {
 		return encode.Int{}
 	case "userenc":
 		return userEnc{}
+	case "userraw":
+		return userRaw{}
 	case "dummy":
 		return encode.Dummy{}
 	case "str16", "str16long":
@@ -248,6 +264,20 @@ func valuesOf(kind string, ids []int64, extra int) interface{} {
 				v[i] = "same" // many values of equal length
 			default:
 				v[i] = strings.Repeat("u", int(x%9)) + fmt.Sprint(x)
+			}
+		}
+		return v[:n]
+	case "userraw":
+		v := make([]string, n+extra)
+		for i := range v {
+			x := id(i)
+			switch {
+			case x%4 == 0:
+				v[i] = "" // encodes to zero bytes
+			case n%2 == 0:
+				v[i] = fmt.Sprintf("r%03d", x%1000) // all non-empty values equally long
+			default:
+				v[i] = strings.Repeat("w", int(x%6)) + fmt.Sprint(x)
 			}
 		}
 		return v[:n]
